@@ -43,3 +43,55 @@ part!(dec_enc_f0, 0xf0, 0xf0);
 part!(dec_enc_f1, 0xf1, 0xf1);
 part!(dec_enc_f2, 0xf2, 0xf2);
 part!(dec_enc_f3_ff, 0xf3, 0xff);
+
+// ---- K2: encode, append an arbitrary tail, decode: the same instruction comes back and exactly the encoding is consumed
+fn enc_dec(op: OpCode) {
+    let mut out: Vec<u8> = Vec::new();
+    if op.encode(&mut out).is_ok() {
+        let n = out.len();
+        let t0: u8 = kani::any();
+        let t1: u8 = kani::any();
+        out.push(t0);
+        out.push(t1);
+        let mut input: &[u8] = &out[..];
+        match OpCode::decode(&mut input) {
+            Ok(back) => { assert!(back == op); assert!(input.len() == 2); assert!(n >= 1); }
+            Err(_) => assert!(false),
+        }
+    }
+}
+fn any_u256() -> ethnum::U256 { ethnum::U256::from_words(kani::any(), kani::any()) }
+#[kani::proof] #[kani::unwind(40)]
+fn enc_dec_noarg() {
+    let sel: u8 = kani::any();
+    let op = match sel {
+        0 => OpCode::Noop, 1 => OpCode::Add, 2 => OpCode::Sub, 3 => OpCode::Mul, 4 => OpCode::Div, 5 => OpCode::Rem, 6 => OpCode::And, 7 => OpCode::Or,
+        8 => OpCode::Xor, 9 => OpCode::Not, 10 => OpCode::Eql, 11 => OpCode::Lt, 12 => OpCode::Gt, 13 => OpCode::Shl, 14 => OpCode::Shr, 15 => OpCode::Store,
+        16 => OpCode::Load, 17 => OpCode::VRef, 18 => OpCode::VAppend, 19 => OpCode::VEmpty, 20 => OpCode::VLength, 21 => OpCode::VSlice, 22 => OpCode::VSet,
+        23 => OpCode::VPush, 24 => OpCode::VCons, 25 => OpCode::BRef, 26 => OpCode::BAppend, 27 => OpCode::BEmpty, 28 => OpCode::BLength, 29 => OpCode::BSlice,
+        30 => OpCode::BSet, 31 => OpCode::BPush, 32 => OpCode::BCons, 33 => OpCode::ItoB, 34 => OpCode::BtoI, 35 => OpCode::TypeQ, _ => OpCode::Dup,
+    };
+    enc_dec(op)
+}
+#[kani::proof] #[kani::unwind(40)]
+fn enc_dec_args() {
+    let sel: u8 = kani::any();
+    let a: u16 = kani::any();
+    let b: u16 = kani::any();
+    let op = match sel {
+        0 => OpCode::Exp(a as u8), 1 => OpCode::Hash(a), 2 => OpCode::SigEOk(a), 3 => OpCode::StoreImm(a), 4 => OpCode::LoadImm(a),
+        5 => OpCode::Bez(a), 6 => OpCode::Bnz(a), 7 => OpCode::Jmp(a), _ => OpCode::Loop(a, b),
+    };
+    enc_dec(op)
+}
+#[kani::proof] #[kani::unwind(40)]
+fn enc_dec_pushi() { enc_dec(OpCode::PushI(any_u256())) }
+#[kani::proof] #[kani::unwind(40)]
+fn enc_dec_pushic() { enc_dec(OpCode::PushIC(any_u256())) }
+#[kani::proof] #[kani::unwind(40)]
+fn enc_dec_pushb() {
+    let buf: [u8; 33] = kani::any();
+    let len: usize = kani::any();
+    kani::assume(len <= 33);
+    enc_dec(OpCode::PushB(buf[..len].to_vec()))
+}
